@@ -9,6 +9,7 @@ import pe as _pe
 import pgp as _pgp
 import macho as _macho
 import magic as _magic
+import xap as _xap
 
 TIE = "corr:c11"
 TIE_THEOREM = ("Relic.Model.{PE,ApkBlock,CsBlob,Binpatch} vs lib/authenticode, signers/apk, lib/fruit/csblob, lib/signxap, lib/binpatch "
@@ -67,6 +68,8 @@ def canon_model(op, mres):
         return _macho.canon_model(op, mres)
     if _tok(op) == "MAGIC":
         return _magic.canon_model(op, mres)
+    if _tok(op) == "XAP":
+        return _xap.canon_model(op, mres)
     return mres
 
 
@@ -87,6 +90,8 @@ def agree(op, il, mres, tag):
         return _macho.equiv(op, il, mres)
     if t == "MAGIC":
         return _magic.equiv(op, il, mres)
+    if t == "XAP":
+        return _xap.equiv(op, il, mres)
     if t == "C11":
         return mres == "safe" and il in ("ok", "err")
     if t in MODEL_TOKENS:
@@ -105,6 +110,8 @@ def agree(op, il, mres, tag):
 
 
 def weight(op):
+    if _tok(op) == "XAP":
+        return _xap.weight(op)
     return _pe.weight(op) if _tok(op) == "PE" else (_macho.weight(op) if _tok(op) == "MACHO" else 1)
 
 
@@ -118,6 +125,8 @@ def nontrivial(op, mres, tag):
         return _macho.nontrivial(op, mres, tag)
     if t == "MAGIC":
         return _magic.nontrivial(op, mres, tag)
+    if t == "XAP":
+        return _xap.nontrivial(op, mres, tag)
     if t == "C11":
         f = op.split(" ")
         return len(f) == 5 and (f[4] != "-" or f[3].startswith(("hex:", "appxpe:", "tx:")))
@@ -134,6 +143,8 @@ def branch(op, mres, tag):
         return _macho.branch(op, mres, tag)
     if t == "MAGIC":
         return _magic.branch(op, mres, tag)
+    if t == "XAP":
+        return _xap.branch(op, mres, tag)
     f = op.split(" ")
     if t == "C11":
         return "%s:%s" % (f[1], f[2])
@@ -164,6 +175,11 @@ def predicate(op, il, mres, tag):
         return r
     if t == "MAGIC":
         return _magic.predicate("C11", op, il, mres, tag)
+    if t == "XAP":
+        r = _xap.predicate("C11", op, il, mres, tag)
+        if r is None and il.startswith(("abort", "timeout", "alloc", "harness-error")):
+            return ("Relic.Props.C11.xap_verify_alloc_le / xap_verify_no_panic (xap %s)" % il.split(" ")[0], mres, "signxap: " + il)
+        return r
     if il.startswith(BAD) or (t == "C11" and il not in ("ok", "err")):
         what = il.split(" ")[0]
         names = {"panic": "no_panic", "abort": "no_process_abort", "timeout": "terminates", "alloc": "alloc_bounded"}
@@ -187,6 +203,8 @@ def matches_known(k, op, il, mres, tag):
         return _pe.matches_known(k, op, il, mres, tag)
     if _tok(op) == "MACHO":
         return _macho.matches_known(k, op, il, mres, tag)
+    if _tok(op) == "XAP":
+        return _xap.matches_known(k, op, il, mres, tag)
     if outcome == "alloc" and il == "timeout":
         # a multi-GiB request may also run into the deadline while the pages are being zeroed: same finding, same entry points
         return _entry(op) in ident.get("entries", [])
